@@ -82,6 +82,90 @@ def _pair_check(ck, rule, inst, site, got, want_re, want_im, norm=None):
         ck.check(diff_verdict(d), rule, "%s:%s" % (inst, nm), site, "%s part: %s" % (nm, diff_msg(d)), got=g, want=w)
 
 
+def _pair_sigmoid(term):
+    """[(case, True / False / None, message)] for a sigmoid computed on the pair (a, b) -> (re, im), or None when the term is not
+    of a shape this decides."""
+    if term is None:
+        return None
+    cases = where_cases(term)
+    if cases is None:
+        return None
+    a, b = T.sym("a"), T.sym("b")
+    E, C, Sn = T.sym("E#"), T.sym("C#"), T.sym("S#")
+
+    def to_ecs(t, neg):
+        """abs(a) by the sign of a in this case; e^(k a) -> E^k; cos b, sin b -> C, S"""
+        def fn(at):
+            if isinstance(at, T.App) and at.op == "abs" and len(at.args) == 1 and at.args[0] in (a, -a):
+                return -a if neg else a
+            return None
+
+        t = T.subst(t, fn)
+
+        def fn2(at):
+            if isinstance(at, T.Exp):
+                ar = at.arg
+                sm = ar.single_mono() if hasattr(ar, "single_mono") else None
+                if sm is not None and len(sm[0]) == 1 and sm[0][0][0] == a.single_atom() and sm[0][0][1] == 1 and sm[1].denominator == 1:
+                    return T.powq(E, int(sm[1]))
+                return None
+            if isinstance(at, T.App) and at.op in ("cos", "sin") and len(at.args) == 1 and at.args[0] in (b, -b):
+                sg = 1 if (at.op == "cos" or at.args[0] == b) else -1
+                return C if at.op == "cos" else sg * Sn
+            return None
+
+        return T.subst(t, fn2)
+
+    def trig0(p_):
+        return T.trig_normal(T.rename_syms(T.rename_syms(p_, {}), {})) if False else p_
+
+    def rat_zero(x_, y_):
+        nx, dx = T._num_den(T.P(x_))
+        ny, dy = T._num_den(T.P(y_))
+        d = nx * dy - ny * dx
+        # S^2 = 1 - C^2
+        out = T.ZERO
+        for mono, c_ in d.terms.items():
+            term_ = T.const(c_)
+            for at, pw in mono:
+                if isinstance(at, T.Sym) and at.name == "S#" and isinstance(pw, int) and pw >= 2:
+                    term_ = term_ * T.powq(T.ONE - C * C, pw // 2) * (T.P(at) if pw % 2 else T.ONE)
+                else:
+                    term_ = term_ * T.powq(T.P(at), pw)
+            out = out + term_
+        return out.is_zero()
+
+    Ei = T.powq(E, -1)
+    D = T.ONE + 2 * Ei * C + Ei * Ei
+    want_re = (T.ONE + Ei * C) * T.inv(T.app("group", D))
+    want_im = (Ei * Sn) * T.inv(T.app("group", D))
+    out = []
+    for asg, tc in cases:
+        comps = T.as_stack0(tc)
+        sign = None
+        for cond, truth in getattr(asg, "terms", []):
+            ca = cond.single_atom() if hasattr(cond, "single_atom") else None
+            if isinstance(ca, T.App) and ca.op in ("cmp_Lt", "cmp_LtE", "cmp_Gt", "cmp_GtE") and len(ca.args) == 2:
+                l_, r_ = ca.args
+                if l_ == a and r_ == T.ZERO:
+                    sign = (ca.op in ("cmp_Lt", "cmp_LtE")) == truth
+                elif r_ == a and l_ == T.ZERO:
+                    sign = (ca.op in ("cmp_Gt", "cmp_GtE")) == truth
+        if comps is None or len(comps) != 2 or (sign is None and any(isinstance(x_, T.App) and x_.op == "abs" for x_ in tc.all_atoms())):
+            return None
+        try:
+            re_, im_ = to_ecs(comps[0], bool(sign)), to_ecs(comps[1], bool(sign))
+            if (re_.syms() | im_.syms()) & {"a", "b"}:
+                return None  # something of a, b that is not e^(ka), cos b, sin b
+            ok_re, ok_im = rat_zero(re_, want_re), rat_zero(im_, want_im)
+        except Exception:
+            return None
+        conj = (not ok_im) and rat_zero(im_, -want_im)
+        out.append((list(asg), bool(ok_re and ok_im),
+                    "in the case %s the pair is not the sigmoid of a + ib%s" % (list(asg), ": the imaginary part has the opposite sign (the conjugate of the sigmoid)" if (ok_re and conj) else "")))
+    return out
+
+
 def run(ck):
     prog = ck.program
     xr, xi, yr, yi = S("xr"), S("xi"), S("yr"), S("yi")
@@ -209,7 +293,14 @@ def run(ck):
                 a_ = comps[k_].single_atom() if comps is not None and len(comps) == 2 else None
                 parts.append(a_.args[0] if isinstance(a_, T.App) and a_.op == nm_ else None)
             if parts[0] is None or parts[1] is None:
-                ck.undecided("C15.R2", "sigmoid:packing", fi.site(), "the result is not (real part, imaginary part) of one complex array: %r" % (p.value.term,))
+                # the sigmoid written on the (re, im) pair itself: decided by value in every case of its elementwise selections,
+                # as rational functions of E = e^a, C = cos b, S = sin b (S^2 = 1 - C^2), with |a| resolved by the case's sign of a
+                verdict = _pair_sigmoid(p.value.term)
+                if verdict is None:
+                    ck.undecided("C15.R2", "sigmoid:packing", fi.site(), "the result is not (real part, imaginary part) of one complex array: %r" % (str(p.value.term)[:200],))
+                else:
+                    for tag_, ok_, why_ in verdict:
+                        ck.check(ok_, "C15.R2", "sigmoid:value = 1/(1+exp(-z)) %s" % tag_, fi.site(), why_)
                 continue
             ck.check(parts[0] == parts[1], "C15.R2", "sigmoid:packing", fi.site(), "the real and the imaginary slot are taken from different complex values")
             # the complex value: exp(z) / (1 + exp(z)) as a rational function of exp(z), in every case of an elementwise selection
